@@ -34,6 +34,11 @@ fn main() {
         }
         "worker" => engine::run_worker(find(&args[2]), &args[3..]),
         "replay" => engine::run_replay(find(&args[2]), &args[3]),
+        // fbv corpus c01_msg <dir> <n>: seed inputs for the libFuzzer target, drawn from the same generator
+        "corpus" => {
+            props::c01::write_corpus(&args[3], args.get(4).and_then(|s| s.parse().ok()).unwrap_or(300));
+            0
+        }
         _ => 2,
     };
     std::process::exit(code);
